@@ -115,14 +115,6 @@ Proof. induction es; intros; simpl; ext_go. apply IHes; assumption. Qed.
 Lemma ev_test_ext : forall st0 st sc c, ext st0 st -> ext st0 (snd (ev_test m ev st sc c)).
 Proof. intros; unfold ev_test; ext_go. Qed.
 
-Lemma ev_progn_ext : forall es st0 st sc, ext st0 st -> ext st0 (snd (ev_progn m ev st sc es)).
-Proof.
-  induction es as [|e es IH]; intros; [simpl; assumption|].
-  destruct es as [|e' es']; [simpl; ext_go|].
-  change (ev_progn m ev st sc (e :: e' :: es')) with
-      (bind (ev st sc e) (fun v st1 => bindo (arg_red m v) st1 (fun _ => ev_progn m ev st1 sc (e' :: es')))).
-  ext_go. apply IH; assumption.
-Qed.
 Lemma ev_cond_ext : forall cls st0 st sc, ext st0 st -> ext st0 (snd (ev_cond m ev st sc cls)).
 Proof.
   induction cls as [|[c body] cls IH]; intros; simpl; ext_go.
@@ -174,17 +166,18 @@ Proof.
 Qed.
 Lemma ev_opt_ext : forall st0 st sc r, ext st0 st -> ext st0 (snd (ev_opt ev st sc r)).
 Proof. intros st0 st sc [e|] H; simpl; ext_go. Qed.
-Lemma ev_inits_seq_ext : forall bs st0 st sc f, ext st0 st -> ext st0 (snd (ev_inits_seq m ev st sc f bs)).
+Lemma ev_inits_seq_ext : forall bs st0 st sc, ext st0 st -> ext st0 (snd (ev_inits_seq m ev st sc bs)).
 Proof.
-  induction bs as [|[[x e] s0] bs IH]; intros; simpl; ext_go. apply IH; ext_go.
+  induction bs as [|[[x e] s0] bs IH]; intros; simpl; ext_go. apply IH.
+  change (mkSt (frames s ++ [[(x, a0)]]) (funs s) (trace s)) with (snd (alloc s [(x, a0)])). ext_go.
 Qed.
 Lemma ev_steps_par_ext : forall bs st0 st sc, ext st0 st -> ext st0 (snd (ev_steps_par m ev st sc bs)).
 Proof.
   induction bs as [|[[x e] [s0|]] bs IH]; intros; simpl; ext_go; apply IH; assumption.
 Qed.
-Lemma ev_steps_seq_ext : forall bs st0 st sc f, ext st0 st -> ext st0 (snd (ev_steps_seq m ev st sc f bs)).
+Lemma ev_steps_seq_ext : forall bs st0 st sc fs, ext st0 st -> ext st0 (snd (ev_steps_seq m ev st sc fs bs)).
 Proof.
-  induction bs as [|[[x e] [s0|]] bs IH]; intros; simpl; ext_go; apply IH; ext_go.
+  induction bs as [|[[x e] [s0|]] bs IH]; intros st0 st sc [|f fs] H; simpl; ext_go; apply IH; ext_go.
 Qed.
 Lemma fold_bind_in_ext : forall (xs : list (string * val)) st0 st f, ext st0 st ->
   ext st0 (fold_left (fun s xv => bind_in s f (fst xv) (snd xv)) xs st).
@@ -196,7 +189,6 @@ Ltac ext_h :=
   | |- ext _ (snd (ev_args _ _ _ _ _)) => apply ev_args_ext
   | |- ext _ (snd (ev_inits _ _ _ _ _)) => apply ev_inits_ext
   | |- ext _ (snd (ev_test _ _ _ _ _)) => apply ev_test_ext
-  | |- ext _ (snd (ev_progn _ _ _ _ _)) => apply ev_progn_ext
   | |- ext _ (snd (ev_cond _ _ _ _ _)) => apply ev_cond_ext
   | |- ext _ (snd (ev_and _ _ _ _ _)) => apply ev_and_ext
   | |- ext _ (snd (ev_or _ _ _ _ _)) => apply ev_or_ext
@@ -206,7 +198,7 @@ Ltac ext_h :=
   | |- ext _ (snd (ev_map _ _ _ _ _)) => apply ev_map_ext
   | |- ext _ (snd (ev_iter _ _ _ _ _ _ _)) => apply ev_iter_ext
   | |- ext _ (snd (ev_opt _ _ _ _)) => apply ev_opt_ext
-  | |- ext _ (snd (ev_inits_seq _ _ _ _ _ _)) => apply ev_inits_seq_ext
+  | |- ext _ (snd (ev_inits_seq _ _ _ _ _)) => apply ev_inits_seq_ext
   | |- ext _ (snd (ev_steps_par _ _ _ _ _)) => apply ev_steps_par_ext
   | |- ext _ (snd (ev_steps_seq _ _ _ _ _ _)) => apply ev_steps_seq_ext
   | |- ext _ (fold_left _ _ _) => apply fold_bind_in_ext
